@@ -16,6 +16,7 @@ use ec_core::operator::selector::random::Random;
 use ec_core::operator::selector::tournament::{Tournament, TournamentSizeError};
 use ec_core::operator::selector::worst::Worst;
 use ec_core::operator::selector::{DynSelector, EmptyPopulation, Selector};
+use ec_core::population::Population;
 use ec_core::test_results::TestResults;
 use ec_core::weighted::error::{SelectionError, WeightSumOverflow, WeightedPairError};
 use ec_core::weighted::weighted_pair::WeightedPair;
@@ -29,6 +30,70 @@ impl<T: Ord + Clone + fmt::Debug + Send + Sync + 'static> Res for T {}
 
 pub type Ind<R> = EcIndividual<u32, TestResults<R>>;
 pub type Pop<R> = Vec<Ind<R>>;
+
+/// What a population type must offer so that every selector of a spec tree can work on it
+/// (`Random` and `Tournament` need the slice view, `Best` / `Worst` / `Lexicase` the borrowed iterator).
+/// `Default` is the empty population (used to warm up dynamic lists).
+pub trait SelPop<R: Res>: Population<Individual = Ind<R>> + AsRef<[Ind<R>]> + Default + Send + Sync + 'static {}
+impl<R: Res, T> SelPop<R> for T where T: Population<Individual = Ind<R>> + AsRef<[Ind<R>]> + Default + Send + Sync + 'static {}
+
+/// A user-defined population type: the live individuals are a prefix of a larger backing store, the
+/// borrowed iterator is lazy (its lower size hint is 0, it is not an `ExactSizeIterator`, so the crate's
+/// blanket `Population` impl does not apply) and `size()` is implemented by hand.
+#[derive(Clone, Debug)]
+pub struct Padded<R: Res> {
+    pub store: Vec<Ind<R>>,
+    pub live: usize,
+}
+
+impl<R: Res> Default for Padded<R> {
+    fn default() -> Self {
+        Self { store: Vec::new(), live: 0 }
+    }
+}
+
+impl<R: Res> Padded<R> {
+    /// `extra` = how many individuals of the store lie beyond the live prefix (copies of the first ones
+    /// with other ids, so that a selector reaching them returns a non-member)
+    #[must_use]
+    pub fn new(live: Vec<Ind<R>>, extra: usize) -> Self {
+        let n = live.len();
+        let mut store = live;
+        for k in 0..extra.min(n.max(1)) {
+            if let Some(first) = store.get(k % n.max(1)).cloned() {
+                let mut c = first;
+                c.genome = 1_000_000 + k as u32;
+                store.push(c);
+            }
+        }
+        Self { store, live: n }
+    }
+}
+
+impl<R: Res> Population for Padded<R> {
+    type Individual = Ind<R>;
+    fn size(&self) -> usize {
+        self.live
+    }
+}
+
+impl<R: Res> AsRef<[Ind<R>]> for Padded<R> {
+    fn as_ref(&self) -> &[Ind<R>] {
+        &self.store[..self.live]
+    }
+}
+
+impl<'a, R: Res> IntoIterator for &'a Padded<R> {
+    type Item = &'a Ind<R>;
+    type IntoIter = std::iter::Filter<std::iter::Take<std::slice::Iter<'a, Ind<R>>>, fn(&&'a Ind<R>) -> bool>;
+    fn into_iter(self) -> Self::IntoIter {
+        fn keep<T>(_: &T) -> bool {
+            true
+        }
+        self.store.iter().take(self.live).filter(keep::<&'a Ind<R>> as fn(&&'a Ind<R>) -> bool)
+    }
+}
+
 
 #[derive(Clone, Debug, Serialize, Deserialize, PartialEq)]
 pub enum Spec {
@@ -84,26 +149,27 @@ impl WSpec {
     }
 }
 
-pub enum Sel<R: Res> {
+pub enum Sel<R: Res, P: Population + 'static = Pop<R>> {
     Marker {
         index: usize,
         calls: std::sync::Arc<std::sync::atomic::AtomicU64>,
+        _r: std::marker::PhantomData<fn() -> R>,
     },
     Best,
     Worst,
     Random,
     Tournament(Tournament),
     Lexicase(Lexicase),
-    Weighted(Box<W<R>>),
-    Dyn(DynWeighted<Pop<R>>),
-    Ref(Box<Sel<R>>),
-    Erased(Box<dyn DynSelector<Pop<R>> + Send + Sync>),
+    Weighted(Box<W<R, P>>),
+    Dyn(DynWeighted<P>),
+    Ref(Box<Sel<R, P>>),
+    Erased(Box<dyn DynSelector<P> + Send + Sync>),
 }
 
 /// weighted things: a weighted leaf or a real `WeightedPair` of two weighted things
-pub enum W<R: Res> {
-    Leaf(Weighted<Sel<R>>),
-    Node(Box<WeightedPair<W<R>, W<R>>>),
+pub enum W<R: Res, P: Population + 'static = Pop<R>> {
+    Leaf(Weighted<Sel<R, P>>),
+    Node(Box<WeightedPair<W<R, P>, W<R, P>>>),
 }
 
 #[derive(Debug)]
@@ -200,14 +266,18 @@ impl E {
     }
 }
 
-impl<R: Res> Selector<Pop<R>> for Sel<R> {
+impl<R: Res, P> Selector<P> for Sel<R, P>
+where
+    P: SelPop<R>,
+    for<'a> &'a P: IntoIterator<Item = &'a Ind<R>>,
+{
     type Error = E;
 
-    fn select<'pop, G: Rng + ?Sized>(&self, population: &'pop Pop<R>, rng: &mut G) -> Result<&'pop Ind<R>, E> {
+    fn select<'pop, G: Rng + ?Sized>(&self, population: &'pop P, rng: &mut G) -> Result<&'pop Ind<R>, E> {
         match self {
-            Self::Marker { index, calls } => {
+            Self::Marker { index, calls, .. } => {
                 calls.fetch_add(1, std::sync::atomic::Ordering::Relaxed);
-                population.get(*index).ok_or(E::Empty(EmptyPopulation))
+                population.as_ref().get(*index).ok_or(E::Empty(EmptyPopulation))
             }
             Self::Best => Best.select(population, rng).map_err(E::Empty),
             Self::Worst => Worst.select(population, rng).map_err(E::Empty),
@@ -217,16 +287,16 @@ impl<R: Res> Selector<Pop<R>> for Sel<R> {
             Self::Weighted(w) => w.select(population, rng),
             Self::Dyn(d) => d.select(population, rng).map_err(E::Dyn),
             Self::Ref(inner) => {
-                let r: &Sel<R> = inner;
+                let r: &Sel<R, P> = inner;
                 // goes through `impl Selector<P> for &S`
-                <&Sel<R> as Selector<Pop<R>>>::select(&r, population, rng)
+                <&Sel<R, P> as Selector<P>>::select(&r, population, rng)
             }
             Self::Erased(b) => b.select(population, rng).map_err(E::Erased),
         }
     }
 }
 
-impl<R: Res> WithWeight for W<R> {
+impl<R: Res, P: Population + 'static> WithWeight for W<R, P> {
     fn weight(&self) -> u32 {
         match self {
             Self::Leaf(l) => l.weight(),
@@ -235,10 +305,14 @@ impl<R: Res> WithWeight for W<R> {
     }
 }
 
-impl<R: Res> Selector<Pop<R>> for W<R> {
+impl<R: Res, P> Selector<P> for W<R, P>
+where
+    P: SelPop<R>,
+    for<'a> &'a P: IntoIterator<Item = &'a Ind<R>>,
+{
     type Error = E;
 
-    fn select<'pop, G: Rng + ?Sized>(&self, population: &'pop Pop<R>, rng: &mut G) -> Result<&'pop Ind<R>, E> {
+    fn select<'pop, G: Rng + ?Sized>(&self, population: &'pop P, rng: &mut G) -> Result<&'pop Ind<R>, E> {
         match self {
             Self::Leaf(l) => l.select(population, rng).map_err(|e| E::Leaf(Box::new(e))),
             Self::Node(n) => n.select(population, rng).map_err(|e| E::Pair(Box::new(e))),
@@ -251,10 +325,18 @@ pub fn build_w<R: Res>(w: &WSpec) -> Result<W<R>, WeightSumOverflow> {
 }
 
 pub fn build_w_with<R: Res>(w: &WSpec, counters: &mut Counters) -> Result<W<R>, WeightSumOverflow> {
+    build_w_on::<R, Pop<R>>(w, counters)
+}
+
+pub fn build_w_on<R: Res, P>(w: &WSpec, counters: &mut Counters) -> Result<W<R, P>, WeightSumOverflow>
+where
+    P: SelPop<R>,
+    for<'a> &'a P: IntoIterator<Item = &'a Ind<R>>,
+{
     Ok(match w {
-        WSpec::Leaf(s, weight) => W::Leaf(Weighted::new(build_with(s, counters)?, *weight)),
+        WSpec::Leaf(s, weight) => W::Leaf(Weighted::new(build_on(s, counters)?, *weight)),
         WSpec::Node(a, b) => {
-            let (a, b) = (build_w_with(a, counters)?, build_w_with(b, counters)?);
+            let (a, b) = (build_w_on(a, counters)?, build_w_on(b, counters)?);
             W::Node(Box::new(WeightedPair::new(a, b)?))
         }
     })
@@ -270,42 +352,51 @@ pub type Counters = Vec<(usize, std::sync::Arc<std::sync::atomic::AtomicU64>)>;
 
 /// Like `build`, additionally returning the call counters of all markers (index, counter) in spec order.
 pub fn build_with<R: Res>(spec: &Spec, counters: &mut Counters) -> Result<Sel<R>, WeightSumOverflow> {
+    build_on::<R, Pop<R>>(spec, counters)
+}
+
+/// The same over any population type that offers what the selectors need.
+pub fn build_on<R: Res, P>(spec: &Spec, counters: &mut Counters) -> Result<Sel<R, P>, WeightSumOverflow>
+where
+    P: SelPop<R>,
+    for<'a> &'a P: IntoIterator<Item = &'a Ind<R>>,
+{
     Ok(match spec {
         Spec::Marker(i) => {
             let calls = std::sync::Arc::new(std::sync::atomic::AtomicU64::new(0));
             counters.push((*i, calls.clone()));
-            Sel::Marker { index: *i, calls }
+            Sel::Marker { index: *i, calls, _r: std::marker::PhantomData }
         }
         Spec::Best => Sel::Best,
         Spec::Worst => Sel::Worst,
         Spec::Random => Sel::Random,
         Spec::Tournament(k) => Sel::Tournament(Tournament::new(NonZeroUsize::new((*k).max(1)).unwrap_or(NonZeroUsize::MIN))),
         Spec::Lexicase(c) => Sel::Lexicase(Lexicase::new(*c)),
-        Spec::Weighted(w) => Sel::Weighted(Box::new(build_w_with(w, counters)?)),
+        Spec::Weighted(w) => Sel::Weighted(Box::new(build_w_on(w, counters)?)),
         Spec::Dyn(list) | Spec::DynGrown(list) => {
             let grown = matches!(spec, Spec::DynGrown(_));
             let mut it = list.iter();
             let Some((first, w0)) = it.next() else {
                 return Ok(Sel::Best);
             };
-            let warm_up = |d: &DynWeighted<Pop<R>>| {
+            let warm_up = |d: &DynWeighted<P>| {
                 if grown {
                     use rand::SeedableRng;
-                    let nobody: Pop<R> = Vec::new();
+                    let nobody: P = P::default();
                     let mut rng = rand::rngs::StdRng::seed_from_u64(7);
                     let _ = d.select(&nobody, &mut rng).is_ok();
                 }
             };
-            let mut d = DynWeighted::new(build_with::<R>(first, counters)?, *w0);
+            let mut d = DynWeighted::new(build_on::<R, P>(first, counters)?, *w0);
             warm_up(&d);
             for (s, w) in it {
-                d = d.with_selector(build_with::<R>(s, counters)?, *w);
+                d = d.with_selector(build_on::<R, P>(s, counters)?, *w);
                 warm_up(&d);
             }
             Sel::Dyn(d)
         }
-        Spec::Ref(s) => Sel::Ref(Box::new(build_with(s, counters)?)),
-        Spec::Erased(s) => Sel::Erased(Box::new(build_with::<R>(s, counters)?)),
+        Spec::Ref(s) => Sel::Ref(Box::new(build_on(s, counters)?)),
+        Spec::Erased(s) => Sel::Erased(Box::new(build_on::<R, P>(s, counters)?)),
     })
 }
 
